@@ -247,7 +247,8 @@ Definition mkdir (root : node) (p0 : str) : fres node :=
       end
   end.
 (* rmdir(path): an empty directory *)
-Definition rmdir (root : node) (p : str) : fres node :=
+Definition rmdir (root : node) (p0 : str) : fres node :=
+  let p := mkdir_path p0 in
   match parent_and_name root p with
   | FErr e => FErr e
   | FOk (_, NFile _, _) => FErr FAttrError
